@@ -14,6 +14,24 @@ LEVEL_NOTE = (
 )
 
 CLAIMED = {
+    "C01": dict(
+        engine="E2-symshape",
+        text="The real tensorly/base.py re-arrangement functions run on an index-map backend whose mode sizes are z3 Ints in [1,B] (all symbolic at once) and whose "
+        "multi-index is symbolic; z3 (QF_NIA, with a size case split as fallback) decides documented shape, documented layout, refold-after-unfold identity and "
+        "size-compatibility of every reshape for ALL shapes within the bound -- not for a sampled list of shapes. The 'no entry re-typed' clause is covered by an "
+        "uninterpreted-sort element run and a finite dtype table that are labelled as non-solver parts in the evidence.",
+        design="DESIGN.md section 2, C01",
+        technique="symbolic-shape execution of base.py on an index-map backend; QF_NIA/LIA validity queries (z3)",
+    ),
+    "C17": dict(
+        engine="E3-symstate",
+        text="One-step inductive check of the real BackendManager/TenalgBackendManager from an arbitrary pre-state (shared default, optional per-thread overrides) "
+        "on real threads with token backends of an uninterpreted sort; the observed post-state is compared with the abstract per-thread-override transition "
+        "relation by EUF validity queries; context exits are checked after re-havocking the whole state, so the steps compose to histories and interleavings of "
+        "any length at operation granularity.",
+        design="DESIGN.md section 2, C17",
+        technique="inductive-step state exploration on the real managers; EUF validity queries over token identities (z3)",
+    ),
     "C02": dict(
         text="Bounded symbolic execution of the real core/einsum tenalg routines (all operand entries are solver variables); every output entry is "
         "compared with its textbook index sum by an SMT validity query. Within the listed shapes and option sets the verdict covers every real "
